@@ -70,3 +70,28 @@ theorem posSpec_body (st : List (List α)) (inner : List α) (x : α) :
   simp [bodyOps, posSpec, posSpec_positions]
 
 end XalanModel.C16
+
+namespace XalanModel.C16
+variable {α : Type} [DecidableEq α]
+
+theorem evalKeyAt_ok (st : XCtx α) (h : PosInv st.lists) (node : α) :
+    (evalKeyAt st node).1 = ⟨node, node, indexOf1 st.lists.top node, st.lists.top.length⟩ ∧
+    PosInv (evalKeyAt st node).2.lists ∧ (evalKeyAt st node).2.lists.stack = st.lists.stack ∧
+    (evalKeyAt st node).2.currentStack = st.currentStack := by
+  obtain ⟨h1, h2, h3⟩ := posStep_ok st.lists h (PosOp.position node)
+  simp only at h2 h3
+  refine ⟨?_, h1, h2, rfl⟩
+  simp [evalKeyAt, h3]
+
+theorem keyContexts_ok (outer : α) (selected : List α) : ∀ (order : List α) (st : XCtx α),
+    PosInv st.lists → st.lists.top = selected →
+    keyContexts evalKeyAt outer selected order st =
+      order.map (fun x => ⟨x, x, indexOf1 selected x, selected.length⟩)
+  | [], _, _, _ => rfl
+  | x :: rest, st, h, ht => by
+    obtain ⟨e1, e2, e3, _⟩ := evalKeyAt_ok st h x
+    have ht' : (evalKeyAt st x).2.lists.top = selected := by
+      unfold PosCtx.top at ht ⊢; rw [e3]; exact ht
+    simp only [keyContexts, List.map_cons, e1, ht, keyContexts_ok outer selected rest _ e2 ht']
+
+end XalanModel.C16
